@@ -273,11 +273,33 @@ def _work(pid, tier, verif_seed, start, count, known_sigs, want_digests, deadlin
 
 
 # ------------------------------------------------------------------------- minimisation
+def _execute_job(pid, tier, recorded):
+    """(runs in a fresh fork) execute one recorded choice list; picklable summary."""
+    ctx, vio, disc, ch = execute(pid, tier, recorded=recorded)
+    return (vio.as_dict() if vio is not None else None, list(vio.cls()) if vio is not None else None, list(ch.record))
+
+
+def execute_isolated(pid, tier, recorded):
+    """execute() in a fresh fork of the pristine server -- for properties about state that
+    leaks across calls, where candidates evaluated one after the other in this process
+    would contaminate each other."""
+    import fresh
+    vd, cls, rec = fresh.server().call("runner", "_execute_job", (pid, tier, list(recorded)))
+    return vd, (tuple(cls) if cls else None), rec
+
+
 def shrink(pid, tier, rec, cls, deadline, known_sigs):
     """Hypothesis-style shrinking of the recorded choice list while the same violation
     class persists."""
+    isolated = getattr(prop_module(pid), "SHRINK_IN_FRESH_FORK", False)
+
     def fails(cand):
         try:
+            if isolated:
+                vd, vcls, rec2 = execute_isolated(pid, tier, cand)
+                if vd is not None and vcls == tuple(cls) and vd["sig"] not in known_sigs:
+                    return rec2
+                return None
             ctx, vio, disc, ch = execute(pid, tier, recorded=cand)
         except BaseException:
             return None
@@ -502,9 +524,13 @@ def run_check(pid, tier, verif_seed, budget_s=None, max_runs=None, workers=None)
         cls = (violation["v"]["clause"], violation["v"]["kind"])
         sdl = time.time() + min(120.0, max(10.0, budget_s / 4))
         minimised, ok = shrink(pid, tier, violation["choices"], cls, sdl, known_sigs)
-        ctx, vio, disc, ch = execute(pid, tier, recorded=minimised)
-        min_v = vio.as_dict() if vio is not None else violation["v"]
-        if vio is None:
+        if getattr(mod, "SHRINK_IN_FRESH_FORK", False):
+            vd, _c, _r = execute_isolated(pid, tier, minimised)
+        else:
+            ctx, vio, disc, ch = execute(pid, tier, recorded=minimised)
+            vd = vio.as_dict() if vio is not None else None
+        min_v = vd if vd is not None else violation["v"]
+        if vd is None:
             minimised = violation["choices"]
         if hasattr(mod, "refine"):
             try:
